@@ -515,6 +515,17 @@ def stepPc {C : Type} (req : Req C) (expired : Bool) (cs : List (String × Nat))
   | .incrWrite s r present => (if present then bump cs s else store cs s, .done r)
   | .done r => (cs, .done r)
 
+/-- the accesses of `incrementCount` to the shared map, in order: the clock is read, the map is cleared when the reset
+time has passed (`Range` deleting every key), the secret's cell is loaded, and it is incremented atomically when it was
+there, stored afresh otherwise — the steps `incrReset`, `incrLoad`, `incrWrite` of `stepPc` -/
+def incrAccesses (expired present : Bool) : List String :=
+  ["timex.Now()"] ++ (if expired then ["tp.history.Range [clear]"] else []) ++
+    ["tp.history.Load(secret)", if present then "atomic.AddUint64(value.(*uint64), 1)" else "tp.history.Store(secret, &count)"]
+
+/-- `loadCount`: one `Load`; the counter's value when it is there, 0 otherwise (`countOf`) -/
+def loadAccesses (present : Bool) : List String :=
+  ["tp.history.Load(secret)", if present then "return *value.(*uint64)" else "return 0"]
+
 /-- the scheduler lets thread `t` take one step -/
 def step {C : Type} (reqs : List (Req C)) (st : St C) (t : Nat) (expired : Bool) : St C :=
   match reqs[t]?, st.pcs[t]? with
